@@ -4,6 +4,19 @@ NOT_APPLICABLE = {('C%02d' % i): TODO for i in range(1, 21)}
 R_NOTE = ('R-model: floats are mathematical reals, float literals are the decimal rationals written in the source, '
           'transcendental functions are uninterpreted with sound axiom instances; IEEE rounding is outside the claim. ')
 CHECKS = {
+    'C17': {
+        'text': 'Bounded symbolic execution + SMT over a position-tracking virtual file: read_ntv2_file, interpolate_ntv2, ntv2_bilinear/ntv2_bicubic, '
+                'the interpolation kernels and transform.ntv2_2d (real source); header cells typed at the offsets the NTv2 format defines (symbolic '
+                'values), node values an uninterpreted function of the absolute byte offset, query point symbolic inside the selected sub-grid. '
+                'LIA/NRA queries decide: header fields read from their offsets and returned rounded as specified; every node read lies in the '
+                'selected sub-grid and the nodes read are exactly the intended neighbours; bilinear = exact blend; the bicubic routine passes the 16 '
+                'intended nodes in their roles; the kernels reproduce linear / bi-quadratic fields (pure polynomial identities); finest containing '
+                'sub-grid chosen also in call sequences; None outside; ntv2_2d signs, units, errors.',
+        'design_ref': 'DESIGN.md section 7 C17',
+        'note': 'Byte decoding (struct, int.from_bytes) is replaced by typed cells; float32 quantisation and IEEE rounding are outside (R-model). '
+                'Known finding: bicubic stencil leaves the sub-grid in the outermost ring of cells.',
+        'technique': 'symbolic execution of the real Python source over a symbolic file model + SMT (z3/cvc5 LIA+NRA), witness replay on synthetic .gsb files',
+    },
     'C15': {
         'text': 'Wiring by bounded symbolic execution + SMT: CoordCart.geo/tm, CoordGeo.cart/tm/notation, CoordTM.geo/cart (real source) on symbolic '
                 'coordinates, heights (present incl. exactly 0.0 / absent in every combination), symbolic ellipsoid, UTM/ISG/symbolic projection '
